@@ -1,4 +1,4 @@
-import TwistedModel.Reactor.ThreadQueue
+import TwistedModel.Reactor.ThreadQueueLife
 /-!
 Driver glue for C13.
   `C13 run <cap> <chunk> <selfwake 0|1> <start check1|poll> <sched>`
@@ -7,6 +7,12 @@ Driver glue for C13.
   `C13 final <cap> <chunk> <selfwake> <start> <n0,n1,…>`
       threads issue n0,n1,… calls round-robin, the reactor interleaved, then the reactor alone
       → `ran=<n0,n1,…>|once=<ok|no>|order=<ok|no>|left=<queue length>|inthread=ok`
+  `C13 lrun <cap> <chunk> <selfwake> <start> <stopWakes 0|1> <fired 0|1> <effs> <sched>`
+      the life-cycle model (`ThreadQueueLife`): effs = `-` or `<t>.<i>:<s|f>` joined by `,`
+      (`s` = the call's body does `reactor.stop()`, `f` = it fires the 'before shutdown' Deferred);
+      fired = the Deferred already has a result when the reactor starts
+      → the `run` line with pc `exited` once `mainLoop` has returned, followed by
+        `|phase=<running|stopping|pending|crashed|exited>|fired=<0|1>|running=<0|1>`
 -/
 namespace Twisted.Drv.C13
 open Twisted.Reactor.ThreadQueue
@@ -72,8 +78,50 @@ def showFinal (ns : List Nat) (s : State) : String :=
   "|order=" ++ (if order then "ok" else "no") ++ "|left=" ++ toString s.queue.length ++
   "|inthread=ok"   -- calls run only in reactor steps (by construction of `step`)
 
+def decEff (s : String) : Option (Call × Eff) :=
+  match s.splitOn ":" with
+  | [c, e] =>
+    match c.splitOn "." with
+    | [t, i] => do
+      let t ← t.toNat?
+      let i ← i.toNat?
+      let e ← if e = "s" then some Eff.stop else if e = "f" then some Eff.fire else none
+      pure (⟨t, i⟩, e)
+    | _ => none
+  | _ => none
+
+def decEffs (s : String) : Option (List (Call × Eff)) :=
+  if s = "-" then some [] else (s.splitOn ",").mapM decEff
+
+def effOf (l : List (Call × Eff)) (c : Call) : Eff :=
+  match l.find? (fun p => p.1 == c) with
+  | some p => p.2
+  | none => .none
+
+def decBool (s : String) : Option Bool :=
+  if s = "1" then some true else if s = "0" then some false else none
+
+def phaseName : Phase → String
+  | .running => "running" | .stopping => "stopping" | .pending => "pending"
+  | .crashed => "crashed" | .exited => "exited"
+
+def showLState (sched : List Actor) (s : LState) : String :=
+  let b := s.base
+  let ex := s.phase == .exited
+  "ran=" ++ showCalls b.ran ++ "|queue=" ++ showCalls b.queue ++ "|waker=" ++ toString b.waker ++
+  "|pc=" ++ (if ex then "exited" else pcName b.pc) ++ "|done=" ++ toString (if ex then 0 else done b) ++
+  "|blocked=" ++ (if lblocked s then "1" else "0") ++
+  "|pw=" ++ showNats ((threadIds sched).filter fun t => b.pw t) ++
+  "|phase=" ++ phaseName s.phase ++ "|fired=" ++ (if s.fired then "1" else "0") ++
+  "|running=" ++ (if alive s then "1" else "0")
+
 def handle (args : List String) : String :=
   match args with
+  | ["lrun", cap, chunk, sw, start, stopWakes, fired, effs, sched] =>
+    match decCfg cap chunk sw, decStart start, decBool stopWakes, decBool fired, decEffs effs, decSched sched with
+    | some cfg, some s0, some swk, some fd, some effs, some sched =>
+      showLState sched (lrun ⟨cfg, swk, effOf effs⟩ sched ⟨s0, .running, fd⟩)
+    | _, _, _, _, _, _ => "bad-op"
   | ["run", cap, chunk, sw, start, sched] =>
     match decCfg cap chunk sw, decStart start, decSched sched with
     | some cfg, some s0, some sched => showState sched (run cfg sched s0)
